@@ -108,7 +108,11 @@ pub fn run_fuzz_leg(run: &mut Run, total_runs: u64, oracle: InputOracle) {
             .arg(format!("-artifact_prefix={}/job{j}-", artifacts.display()))
             .env("VERIF_ONLY", id)
             .stdout(std::process::Stdio::null())
-            .stderr(std::process::Stdio::piped())
+            // to a file, not a pipe: libFuzzer is chatty and 16 pipes read one after the other would stall the jobs
+            .stderr(match std::fs::File::create(artifacts.join(format!("job{j}.log"))) {
+                Ok(f) => std::process::Stdio::from(f),
+                Err(_) => std::process::Stdio::null(),
+            })
             .spawn();
         match child {
             Ok(c) => children.push(c),
@@ -119,9 +123,9 @@ pub fn run_fuzz_leg(run: &mut Run, total_runs: u64, oracle: InputOracle) {
     let mut crashed = false;
     let mut hung = false;
     let mut last_msgs = vec![];
-    for c in children {
-        let out = c.wait_with_output().expect("wait fuzz job");
-        let err = String::from_utf8_lossy(&out.stderr);
+    for (j, mut c) in children.into_iter().enumerate() {
+        let status = c.wait().expect("wait fuzz job");
+        let err = std::fs::read(artifacts.join(format!("job{j}.log"))).map(|b| String::from_utf8_lossy(&b).into_owned()).unwrap_or_default();
         for l in err.lines() {
             if let Some(n) = l.strip_prefix("stat::number_of_executed_units:") {
                 executed += n.trim().parse::<u64>().unwrap_or(0);
@@ -133,7 +137,7 @@ pub fn run_fuzz_leg(run: &mut Run, total_runs: u64, oracle: InputOracle) {
                 hung = true;
             }
         }
-        if !out.status.success() {
+        if !status.success() {
             crashed = true;
         }
     }
